@@ -3,8 +3,8 @@
    arithmetic of draw_background_image), model/C13Stream.v (Stream.add_image, _use_references).
    Specifications: model/C13Spec.v (written from CSS 2.1 10.3.2, 10.4, 10.6.2, 10.7, css-images-3, css-backgrounds-3). *)
 From Coq Require Import QArith Qminmax List Bool String.
-Require Import WV.model.C13Replaced WV.model.C13Spec WV.model.C13Background WV.model.C13Stream.
-Require Import WV.proofs.C13_fit WV.proofs.C13_minmax WV.proofs.C13_sizing WV.proofs.C13_background WV.proofs.C13_stream.
+Require Import WV.model.C13Replaced WV.model.C13Spec WV.model.C13Background WV.model.C13Stream WV.model.C13XObject.
+Require Import WV.proofs.C13_fit WV.proofs.C13_minmax WV.proofs.C13_sizing WV.proofs.C13_background WV.proofs.C13_stream WV.proofs.C13_xobject.
 Import ListNotations.
 Open Scope Q_scope.
 
@@ -201,3 +201,52 @@ Theorem C13_xobject_added_once ds :
   NoDup (added s) /\ (forall m, In m (added s) <-> exists d, In d ds /\ In m d).
 Proof. exact (xobject_added_once ds). Qed.
 Print Assumptions C13_xobject_added_once.
+
+(* ---- the embedded image XObject (model/C13XObject.v): orientation, dimensions, /Decode *)
+Open Scope Z_scope.
+
+(* an orientation (EXIF code 1..8) shows every source pixel exactly once, inside the oriented dimensions *)
+Theorem C13_orientation_bijection o w h x y :
+  (let '(dx, dy) := dst_of o w h x y in src_of o w h dx dy) = (x, y) /\
+  (let '(sx, sy) := src_of o w h x y in dst_of o w h sx sy) = (x, y).
+Proof. exact (src_dst_inverse o w h x y). Qed.
+Print Assumptions C13_orientation_bijection.
+
+Theorem C13_orientation_in_range o w h x y :
+  let '(ow, oh) := out_dims o w h in
+  0 <= x < ow -> 0 <= y < oh ->
+  let '(sx, sy) := src_of o w h x y in 0 <= sx < w /\ 0 <= sy < h.
+Proof. exact (src_in_range o w h x y). Qed.
+Print Assumptions C13_orientation_in_range.
+
+(* image-orientation: <angle> [flip] = that many quarter turns to the right, then a horizontal flip *)
+Theorem C13_angle_flip_code w h x y :
+  src_of (quarter_code 0 false) w h x y = idv x y /\
+  src_of (quarter_code 1 false) w h x y = rot_cw idv h x y /\
+  src_of (quarter_code 2 false) w h x y = rot_cw (rot_cw idv h) w x y /\
+  src_of (quarter_code 3 false) w h x y = rot_cw (rot_cw (rot_cw idv h) w) h x y /\
+  src_of (quarter_code 0 true) w h x y = flip_h idv w x y /\
+  src_of (quarter_code 1 true) w h x y = flip_h (rot_cw idv h) h x y /\
+  src_of (quarter_code 2 true) w h x y = flip_h (rot_cw (rot_cw idv h) w) w x y /\
+  src_of (quarter_code 3 true) w h x y = flip_h (rot_cw (rot_cw (rot_cw idv h) w) h) h x y.
+Proof. exact (quarter_code_correct w h x y). Qed.
+Print Assumptions C13_angle_flip_code.
+
+(* the consumer paints the source ink iff /Decode is inverted exactly for sources with the Adobe APP14 marker,
+   whether the DCT stream was passed through or re-encoded by Pillow (orientation, optimisation, quality) *)
+Theorem C13_decode_iff_app14 reencoded app14 dec t :
+  0 <= t <= 255 -> (painted dec (embedded reencoded app14 t) = t <-> dec = app14).
+Proof. exact (decode_iff_app14 reencoded app14 dec t). Qed.
+Print Assumptions C13_decode_iff_app14.
+
+(* ... and that is the flag of the XObject model, for every orientation, mode and size *)
+Theorem C13_xobject_decode_rule m trns app14 jpeg o w h :
+  xa_decode_inverted (expected_attrs m trns app14 jpeg o w h) = true <-> (truth_mode m trns = MCMYK /\ app14 = true).
+Proof. exact (expected_decode_rule m trns app14 jpeg o w h). Qed.
+Print Assumptions C13_xobject_decode_rule.
+
+Theorem C13_xobject_dims m trns app14 jpeg o w h :
+  let e := expected_attrs m trns app14 jpeg o w h in
+  (xa_w e, xa_h e) = if swaps o then (h, w) else (w, h).
+Proof. exact (expected_dims m trns app14 jpeg o w h). Qed.
+Print Assumptions C13_xobject_dims.
